@@ -12,17 +12,28 @@ EXTENDS Naturals, Sequences, FiniteSets, TLC, Json, IOUtils
 CONSTANTS Export
 Cases == [kind : {"call", "push"}, method : {"echo", "fail", "missing"}, codec : {"j", "p"},
           reqmeta : {"none", "one", "realip", "repeated"}, replymeta : {"none", "one", "two"},
-          body : {"short", "empty", "special", "big", "nil"}, failure : {"none", "downbefore", "writefail", "cutduring"}]
+          body : {"short", "empty", "special", "big", "nil"}, failure : {"none", "downbefore", "writefail", "cutduring"},
+          \* what happened EARLIER on the proxy's forwarder (backend) session, before the exchange under test:
+          \*   "deadlinemsg"  a message was written there under a context deadline (a health probe with a timeout), which has
+          \*                  since passed
+          \*   "agedoff"      an exchange took place there under a context age, which was then switched off (SetContextAge(0));
+          \*                  the age has run out since
+          \* Whatever that left on the session or its connection (an armed write deadline, a pooled context) must not show in
+          \* the proxied exchange: the direct reference session has no such past.
+          earlier : {"none", "deadlinemsg", "agedoff"}]
 OK(c) == /\ (c.kind = "push" => c.method # "fail" /\ c.replymeta = "none" /\ c.failure # "cutduring")
          /\ (c.method = "missing" => c.replymeta = "none" /\ c.failure = "none")
          /\ (c.failure # "none" => c.method = "echo" /\ c.body = "short" /\ c.replymeta = "none")
          /\ (c.codec = "p" => c.method # "fail")
          \* "nil": no argument at all (a zero-length body on the wire), sent after non-empty proxied exchanges
          /\ (c.body = "nil" => c.replymeta = "none")
+         \* the forwarder session's past is varied for healthy exchanges with a short body (every kind, method, codec and metadata
+         \* class: 60 cases x 2 pasts); it is independent of the size classes and the failure classes re-make the connection
+         /\ (c.earlier # "none" => c.failure = "none" /\ c.body = "short")
          \* "writefail": the proxy's write of the forwarded message fails (reset / broken pipe) while the connection still looks healthy
 Expect(c) == IF c.failure # "none" THEN "badgateway" ELSE "same"
 \* 200 proxied calls made by 8 goroutines at the same time, each with reply metadata of its own: every caller gets its own
-Conc == {[kind |-> "call", method |-> "echo", codec |-> cd, reqmeta |-> "one", replymeta |-> "one", body |-> "short", failure |-> "none", conc |-> TRUE] : cd \in {"j", "p"}}
+Conc == {[kind |-> "call", method |-> "echo", codec |-> cd, reqmeta |-> "one", replymeta |-> "one", body |-> "short", failure |-> "none", earlier |-> "none", conc |-> TRUE] : cd \in {"j", "p"}}
 VARIABLES c, done
 vars == <<c, done>>
 Init == c \in {[x EXCEPT !.kind = x.kind] @@ [conc |-> FALSE] : x \in {y \in Cases : OK(y)}} \cup Conc /\ done = FALSE
@@ -31,6 +42,6 @@ Spec == Init /\ [][Run]_vars
 OracleSane == (Expect(c) = "badgateway") <=> (c.failure # "none")
 Emit == Export = "" \/
   Serialize(ToJson([kind |-> c.kind, method |-> c.method, codec |-> c.codec, reqmeta |-> c.reqmeta, replymeta |-> c.replymeta,
-                    body |-> c.body, failure |-> c.failure, conc |-> c.conc, expect |-> Expect(c)]) \o "\n", Export,
+                    body |-> c.body, failure |-> c.failure, earlier |-> c.earlier, conc |-> c.conc, expect |-> Expect(c)]) \o "\n", Export,
             [format |-> "TXT", charset |-> "UTF-8", openOptions |-> <<"WRITE", "CREATE", "APPEND">>]).exitValue = 0
 =============================================================================
